@@ -288,6 +288,9 @@ def run_case(case):
                                                               holding=holding, kick=lambda h: sholder[0].ecu.add_timer(h / 2, lambda cookie: False)))
     elif preempt:
         sim.trace_hook = tracer
+    # a configured minimum DT interval (the burst loop then leaves after every packet and the session stays 'sending' for a whole window)
+    if random.Random(case['seed'] ^ 0xD7).random() < 0.3:
+        skw['minimum_tp_rts_cts_dt_interval'] = random.Random(case['seed'] ^ 0xD8).choice([0.003, 0.01])
     S = W.stack('S', max_cmdt_packets=rng.choice([1, 2, 255]), **skw)
     if rxp:
         sholder.append(S)
@@ -306,7 +309,7 @@ def run_case(case):
     inv_ok = install_pool_invariant(S, viol, inv_count, layer, holding) if fd else False
     W.run(0.01)
 
-    obs = dict(pool_not_observed=1 if (fd and not inv_ok) else 0, preempted_cases=1 if preempt else 0, rx_preempted_cases=1 if rxp else 0, history_steps=0, failed_transfers=0, probe_transfers_delivered=0, probe_refusals_checked=0, pool_invariant_checks=0,
+    obs = dict(pool_not_observed=1 if (fd and not inv_ok) else 0, dt_interval_cases=1 if 'minimum_tp_rts_cts_dt_interval' in skw else 0, preempted_cases=1 if preempt else 0, rx_preempted_cases=1 if rxp else 0, history_steps=0, failed_transfers=0, probe_transfers_delivered=0, probe_refusals_checked=0, pool_invariant_checks=0,
                inbound_odd_sessions=0, refused_during_history=0)
     steps = []
     sends = []       # dict(t, sa, da, mode, ret)
